@@ -44,9 +44,12 @@ def _run(cmd, cwd=LEAN, timeout=3000, inp=None):
     return p.returncode, p.stdout + p.stderr
 
 
-def lake_build(targets):
+def lake_build(targets, have_lock=False):
     """Build the given module targets (serialised with a file lock). returns (ok, log)."""
     os.makedirs(LEAN, exist_ok=True)
+    if have_lock:
+        rc, out = _run(["lake", "build"] + list(targets))
+        return rc == 0, out
     with open(LOCK, "w") as lk:
         fcntl.flock(lk, fcntl.LOCK_EX)
         rc, out = _run(["lake", "build"] + list(targets))
@@ -313,13 +316,16 @@ def lean_phase(res, prop, gen_groups, targets, extra_modules=()):
     import gen as gen_mod
 
     ok = True
-    if gen_groups:
-        errs = gen_mod.regenerate(gen_groups)
-        for g, e in errs.items():
-            for x in e:
-                res.tie_broken.append(f"translator {g}: {x}")
-                ok = False
-    built, log = lake_build(targets)
+    # regeneration and build under ONE exclusive lock: a concurrent run must not rewrite Gen/ between the two
+    with open(LOCK, "w") as lk:
+        fcntl.flock(lk, fcntl.LOCK_EX)
+        if gen_groups:
+            errs = gen_mod.regenerate(gen_groups)
+            for g, e in errs.items():
+                for x in e:
+                    res.tie_broken.append(f"translator {g}: {x}")
+                    ok = False
+        built, log = lake_build(targets, have_lock=True)
     if not built:
         ok = False
         decls = failing_decls(log) or ["lake build failed: " + log[-300:]]
